@@ -20,7 +20,7 @@ def streams(ctx, drv, n_random, single_ops):
             cmds = [filt.gen_command(rng, db, ops=single_ops)]
             stream = "single-command"
         else:
-            cmds = [filt.gen_command(rng, db) for _ in range(rng.randint(0, 5))]
+            cmds = filt.gen_pipeline(rng, db, rng.randint(0, 5))
             stream = "pipeline"
         steps = i % 5 == 0
         eq, impl, model = filt.compare(db, cmds, drv, steps=steps)
